@@ -44,8 +44,39 @@ module.exports = function (repo, loadPrelude) {
       throw e;
     }
   }
+  // ---- types of the grid language built with the REAL constructors ($arrayType, $structType, $sliceType, ...) ----
+  let tyCounter = 0;
+  function buildTy(toks) { // prefix notation, consumes tokens
+    const t = toks.shift();
+    switch (t[0]) {
+      case 'i': return P('$Int');
+      case 's': return P('$String');
+      case 'e': return P('$emptyInterface');
+      case 'S': return sliceT;
+      case 'M': return mapT;
+      case 'F': return P('$funcType')([], [], false);
+      case 'A': return P('$arrayType')(buildTy(toks), Number(t.slice(1)));
+      case 'T': {
+        const k = Number(t.slice(1)); const fields = [];
+        for (let i = 0; i < k; i++) {
+          const kind = toks.shift(); const typ = buildTy(toks);
+          if (kind === 'n') fields.push({ prop: 'f' + i, name: 'f' + i, embedded: false, exported: false, typ: typ, tag: '' });
+          else if (kind === 'b') fields.push({ prop: '_$' + i, name: '_', embedded: false, exported: false, typ: typ, tag: '' });
+          else if (kind === 'm') fields.push({ prop: 'E' + i, name: 'E' + i, embedded: true, exported: true, typ: typ, tag: '' });
+          else throw new Error('bad field kind ' + kind);
+        }
+        return P('$structType')('main', fields);
+      }
+    }
+    throw new Error('bad type token ' + t);
+  }
+  const tyOf = str => buildTy(str.split(','));
+  const boxed = typ => new typ(typ.zero());   // an interface value holding the zero value of a wrapped (struct / array) type
   return function (a) {
     switch (a[0]) {
+      case 'comparable': return String(tyOf(a[1]).comparable);
+      case 'ifaceeqty': return guard(() => { const t = tyOf(a[1]); return String(P('$interfaceIsEqual')(boxed(t), boxed(t))); });
+      case 'keyfor': return guard(() => { const t = tyOf(a[1]); const k = P('$emptyInterface').keyFor(boxed(t)); return typeof k === 'string' ? 'ok' : 'notstring'; });
       case 'index': return guard(() => { const s = mk(Math.max(0, Number(a[1])), Math.max(0, Number(a[1]))); getIndexFn()(s, Number(a[2])); return a[2]; });
       case 'subslice': return guard(() => {
         const s = mk(Number(a[1]), Number(a[2]));
